@@ -374,6 +374,13 @@ struct Explorer {
         it->second.mtime = d->Tick();
         return true;
       }
+      case Op::kEpoch: {
+        // `touch -d @0 file`: the time stamp a file gets from an archive made reproducibly (mtime -1 = second 0, ns 0)
+        auto it = d->files.find(op.path);
+        if (it == d->files.end() || it->second.dir || it->second.mtime == -1) return false;
+        it->second.mtime = -1;
+        return true;
+      }
       case Op::kRm: return d->Remove(op.path);
       case Op::kWrite: {
         const vfs::File* f = d->Get(op.path);
